@@ -1,6 +1,7 @@
 #!/bin/bash
 # seedrun.sh <seed-dir> [prop] [tier] : apply a seeded change to /repo, run the property's check, undo the change.
 SD="$(cd "$1" && pwd)"; PROP="${2:-$(basename "$SD" | cut -d- -f1)}"; TIER="${3:-quick}"
+[ -z "$(git -C /repo status --porcelain)" ] || { echo "/repo is dirty: commit first"; exit 2; }
 cd /repo && git apply "$SD/patch.diff" || { echo "patch does not apply"; exit 2; }
 cd /verif && GOVC_NOEVIDENCE=1 GOVC_REPLAYDIR=/tmp/govc-seed-replays ./check "$PROP" "$TIER"; rc=$?
 cd /repo && git checkout -- . 
